@@ -412,6 +412,20 @@ def r9_put_get_same_offset(ctx, rule="C18.R9"):
             raise CheckError("anchor FileInfo::%s" % name)
         pv = mir.Prov(f.body)
         seeks = [(b, t) for b, t in f.body.calls() if (t.get("cpath") or "").endswith("Seek::seek")]
+        if not seeks:
+            # the positioning may live in a private helper shared by PUT and GET: the helper must
+            # receive this function's own (self, record number) and is then judged in their place
+            for b, t in f.body.calls():
+                g = prog.fns.get(mir.callee_of(t))
+                if g is None or g.crate != "rusty_basic" or g.file != f.file:
+                    continue
+                gs = [(b2, t2) for b2, t2 in g.body.calls() if (t2.get("cpath") or "").endswith("Seek::seek")]
+                if len(gs) == 1:
+                    passed = [mir.strip_all(pv.of_operand(a)) for a in t["args"]]
+                    if passed[:2] == [("param", 0), ("param", 1)]:
+                        pv = mir.Prov(g.body)
+                        seeks = gs
+                    break
         if len(seeks) != 1:
             raise CheckError("FileInfo::%s: expected one seek, found %d" % (name, len(seeks)))
         o = pv.of_operand(seeks[0][1]["args"][1])
